@@ -411,21 +411,23 @@ def small_act(a):
     return dict({'op': a['op']}, **{k: a[k] for k in keep})
 
 
-def observe_sess(case):
+def observe_sess(case, chooser=None):
     """case: {form, w0, steps: [{a, (w, res)}], unit, tz, btz, brep, iunit, name, spelling}: the steps are performed one after
-    the other on ONE world; the whole world is read before the session and after every step.  Returns the list of
-    step observations {op 'step', w = the world as read before the step, a, x = {w = the world read afterwards, out}}."""
+    the other on ONE world; the whole world is read before the session and after every step.  chooser(k, world read, last
+    step) supplies the steps of a random session instead (None = the session ends).  Returns the list of step
+    observations {op 'step', w = the world as read before the step, a, x = {w = the world read afterwards, out}}."""
     clock = Clock('date', 100, case['unit'], case.get('tz'), None, case.get('btz'), case.get('brep'), case.get('iunit'))
     W = World(case['w0'], clock, case.get('name'))
     before = W.read()
     if before != case['w0']:
         raise Machinery('C13 driver: the rendered world does not read back as the abstract one: %r' % (case['w0'],))
     meta = {k: case.get(k) or '' for k in ('form', 'tz', 'btz', 'brep', 'iunit')}
-    meta.update(unit=case['unit'], named=bool(case.get('name')), spelling=case.get('spelling', 0), w0=case['w0'],
-                acts=[small_act(st['a']) for st in case['steps']])
-    out = []
-    for k, st in enumerate(case['steps']):
-        a = st['a']
+    meta.update(unit=case['unit'], named=bool(case.get('name')), spelling=case.get('spelling', 0), w0=case['w0'], sid=case.get('sid', 0))
+    out, acts, k, a = [], [], 0, None
+    while True:
+        a = chooser(k, before, a) if chooser else (case['steps'][k]['a'] if k < len(case['steps']) else None)
+        if a is None:
+            break
         try:
             res = W.step(a, case.get('spelling', 0) + k)
         except Machinery:
@@ -436,12 +438,125 @@ def observe_sess(case):
             break                       # the caller's edit has nothing to work on (an earlier result is not what the specification says)
         after = W.read()
         x = {'w': after, 'out': res if res is not None else dict(NOFRAME, kind='none')}
-        out.append(dict(meta, op='step', k=k + 1, w=before, a=a, x=x))
+        acts = acts + [small_act(a)]
+        k += 1
+        out.append(dict(meta, op='step', k=k, w=before, a=a, x=x, acts=acts))
         before = after
         if -9 in after['ids'] or -9 in after['bl'] or any(h['rows'] == [-9] for h in after['heap']):
             break                       # the caller's lists no longer hold what a next step could speak of
         if res is not None and res['kind'] != 'val':
             break                       # the call gave no result the next steps could work on
+    return out
+
+
+def act(op, **kw):
+    """a step record with every field (the form in which TLC prints steps and Trace_Slice reads them)"""
+    a = {'op': op, 'tgt': '', 'i': 0, 'j': 0, 'r': 0, 'v': 0, 'n': 0, 'b': 0, 'lb': 0, 'ub': 0, 'oc': ['(', ']'], 's': dict(NOFRAME)}
+    a.update(kw)
+    return a
+
+
+def rand_sess(rng):
+    """the start of a random session: 1-4 series on a minute grid (daily or hourly points, gaps), monotone bounds on, next to
+    and between the points; the steps are drawn while the session runs (sess_chooser)"""
+    k = rng.choice([1, 2, 2, 3, 3, 4])
+    step = rng.choice([1440, 60])
+    heap = []
+    for i in range(k):
+        pts = sorted(rng.sample(range(1, 31), rng.choice([0, 1, 3, 8, 15, 25]) if rng.random() < 0.9 else 30))
+        heap.append({'rows': [p * step for p in pts], 'cols': [[1000 * (i + 1) + p for p in pts]]})
+    ubs = sorted(rng.sample(range(1, 34), k))
+    ubs = sorted({u * step + rng.choice([0, 0, 1, -1, step // 2]) for u in ubs})
+    while len(ubs) < k:
+        ubs.append(ubs[-1] + step)
+    if rng.random() < 0.3:
+        ubs = ubs[::-1]
+    ids = list(range(1, k + 1))
+    if k >= 2 and rng.random() < 0.15:
+        ids[rng.randrange(1, k)] = 1                    # the same series object at two positions of the list
+    tz = rng.choice(C2S_TZS)
+    brep = rng.choice(BREPS)
+    return {'form': 'random', 'w0': {'heap': heap, 'ids': ids, 'bl': ubs, 'fr': dict(NOFRAME), 'fn': 0}, 'unit': 1, 'step': step,
+            'seed': rng.randrange(1 << 30), 'nsteps': rng.choice([4, 6, 8]), 'tz': tz, 'btz': rng.choice(BTZS) if tz else None,
+            'brep': brep, 'iunit': rng.choice(IUNITS), 'name': rng.choice([None, 'close']), 'spelling': rng.randrange(0, 12)}
+
+
+def sess_chooser(case):
+    """draws the next step of a random session from what the world, as it reads now, makes possible (which rows, cells and
+    positions exist): public calls and the caller's own in-place edits in any order.  df_unslice is asked for stitched
+    frames only: after a stitch with increasing bounds of series without NaN, and after corrections of values that are
+    there (SliceSess.tla: StitchedCanUnstitch, CorrectionKeepsStitched)."""
+    import random
+    rng = random.Random(case['seed'])
+    step, st = case['step'], {'fresh': False, 'new': 0}
+
+    def bound_near(w):
+        pts = sorted({r for h in w['heap'] for r in h['rows']}) or [step]
+        return max(1, rng.choice(pts) + rng.choice([0, 0, 1, -1, step // 2, -step]))
+
+    def choose(k, w, last):
+        if k >= case['nsteps']:
+            return None
+        nS, fr = len(w['ids']), w['fr']
+        cells = [(r + 1, j + 1) for j, col in enumerate(fr['cols']) for r, v in enumerate(col) if v != NAN]
+        menu = ['stitch'] * 3 + ['slice_s'] * 2 + ['put']
+        if st['fresh'] and w['fn'] >= 1:
+            menu += ['unslice'] * 3
+        if w['fn'] >= 1:
+            menu += ['slice_f'] + (['set_f'] * 3 if cells else [])
+        if any(w['heap'][i - 1]['rows'] for i in w['ids']):
+            menu += ['set_s'] * 2
+        if nS >= 2 and len(set(w['ids'])) >= 2:
+            menu += ['swap']
+        menu += ['bound']
+        if last and last['op'] in ('unslice', 'slice'):
+            menu += ['smudge'] * 2
+        what = rng.choice(menu)
+        st['new'] += 1
+        if what == 'stitch':
+            st['fresh'] = all(a < b for a, b in zip(w['bl'], w['bl'][1:])) and not any(NAN in h['cols'][0] for h in w['heap'])
+            return act('stitch', n=rng.randrange(1, nS + 1))
+        if what == 'unslice':
+            return act('unslice')
+        if what in ('slice_s', 'slice_f'):
+            lb, ub = rng.choice([0, bound_near(w)]), rng.choice([0, bound_near(w)])
+            return act('slice', tgt='s' if what == 'slice_s' else 'f', i=rng.randrange(1, nS + 1) if what == 'slice_s' else 0,
+                       lb=lb, ub=ub, oc=rng.choice(OCS))
+        if what == 'set_s':
+            i = rng.choice([i for i in range(1, nS + 1) if w['heap'][w['ids'][i - 1] - 1]['rows']])
+            return act('set', tgt='s', i=i, j=1, r=rng.randrange(1, len(w['heap'][w['ids'][i - 1] - 1]['rows']) + 1), v=900000 + st['new'])
+        if what == 'set_f':
+            r, j = rng.choice(cells)
+            return act('set', tgt='f', r=r, j=j, v=900000 + st['new'])
+        if what == 'swap':
+            i, j = sorted(rng.sample(range(1, nS + 1), 2))
+            if w['ids'][i - 1] == w['ids'][j - 1]:
+                return choose(k, w, last)
+            return act('swap', i=i, j=j)
+        if what == 'put':
+            i = rng.randrange(1, nS + 1)
+            old = w['heap'][w['ids'][i - 1] - 1]
+            keep = [r for r in range(len(old['rows'])) if rng.random() < 0.8]
+            return act('put', i=i, s={'rows': [old['rows'][r] for r in keep], 'cols': [[old['cols'][0][r] for r in keep]]})
+        if what == 'bound':
+            i = rng.randrange(1, nS + 1)
+            bl = list(w['bl'])
+            inc = all(a < b for a, b in zip(bl, bl[1:]))
+            lo = (bl[i - 2] if i >= 2 else 0) if inc else (bl[i] if i < nS else 0)
+            hi = (bl[i] if i < nS else bl[i - 1] + 3 * step) if inc else (bl[i - 2] if i >= 2 else bl[i - 1] + 3 * step)
+            cand = [b for b in {bl[i - 1] + 1, bl[i - 1] - 1, (lo + hi) // 2, hi - 1, lo + 1} if lo < b < hi and b >= 1 and b != bl[i - 1]]
+            if not cand:
+                return choose(k, w, last)
+            st['fresh'] = False
+            return act('bound', i=i, b=rng.choice(sorted(cand)))
+        return act('smudge', tgt='un' if last['op'] == 'unslice' else 'sl')
+    return choose
+
+
+def c2s_sess_chunk(cases):
+    out = []
+    for c in cases:
+        out += observe_sess(c, sess_chooser(c))
     return out
 
 
@@ -632,8 +747,15 @@ def report(ctx):
 
 def judge(ctx, obs):
     bad = ctx.validate('Trace_Slice', obs)
+    first = {}
+    for i, clause in bad:           # of a session only the first step that the specification rejects is a finding (the rest follows from it)
+        o = obs[i - 1]
+        if o['op'] == 'step':
+            first[o['sid']] = min(first.get(o['sid'], o['k']), o['k'])
     for i, clause in bad:
         o = obs[i - 1]
+        if o['op'] == 'step' and o['k'] != first[o['sid']]:
+            continue
         if o['op'] == 'slice':
             PENDING.append((clause, key_slice(o), {'runs': o['runs']}))
         elif o['op'] == 'session':
@@ -701,6 +823,7 @@ def s2c(ctx, cases, tag):
         judge(ctx, tolog)
 
 
+FORMS = ['stitch2', 'frame', 'slice2']
 SESS_OPS = {'stitch', 'unslice', 'slice', 'set', 'bound', 'swap', 'put', 'smudge'}
 
 
@@ -716,6 +839,7 @@ def s2c_sessions(ctx, sessions, tag, forms):
     if {k[1] for k in seen} != SESS_OPS:
         raise Machinery('vacuous: the sessions of %s never take the steps %s' % (tag, sorted(SESS_OPS - {k[1] for k in seen})))
     for i, c in enumerate(sessions):
+        c['sid'] = i
         c['tz'] = TZS[(i // 12 + i) % len(TZS)]
         c['btz'] = BTZS[(i // 5) % len(BTZS)] if c['tz'] else None
         c['brep'] = BREPS[(i // 7 + i) % len(BREPS)]
@@ -881,6 +1005,24 @@ def c2s(ctx, n_slice, n_stitch):
     return obs
 
 
+def c2s_sessions(ctx, n):
+    """random sessions on larger worlds: every step is judged by Trace_Slice (StepVerdict of SliceSess.tla)"""
+    cases = [rand_sess(ctx.rng) for _ in range(n)]
+    for i, c in enumerate(cases):
+        c['sid'] = i
+    obs = pmap(c2s_sess_chunk, cases, chunk=10)
+    ctx.evals += sum(2 if o['a']['op'] == 'unslice' else 1 for o in obs if o['a']['op'] in ('stitch', 'unslice', 'slice'))
+    judge(ctx, obs)
+    ops = {o['a']['op'] for o in obs}
+    if ops != SESS_OPS:
+        raise Machinery('vacuous: the random sessions never take the steps %s' % sorted(SESS_OPS - ops))
+    for o in obs:
+        if o['k'] >= 3 and o['a']['op'] in ('stitch', 'unslice', 'slice'):
+            ctx.note(('c2s_sess', repr((o['w0'], o['acts']))))
+    ctx.sample({'c2s_session_step': {k: obs[len(obs) // 2][k] for k in ('w0', 'acts', 'tz', 'btz', 'brep', 'x')}})
+    return obs
+
+
 def replay(ctx, body):
     """./check C13 --replay <file>: run the recorded case again and let Trace_Slice judge it"""
     import json, shutil
@@ -931,11 +1073,23 @@ def run(ctx):
     if ctx.quick:
         ctx.mc('MC_Slice', 'MC_Slice_quick.cfg')
         s2c(ctx, ctx.generate('MC_Slice', 'MC_Slice_gen.cfg'), 'quick')
+        # sessions (the generator configuration carries the clauses of the session machine as invariants)
+        s2c_sessions(ctx, ctx.generate('MC_SliceSess', 'MC_SliceSess_gen_quick.cfg'), 'pairs', FORMS)
+        s2c_sessions(ctx, ctx.generate('MC_SliceSess', 'MC_SliceSess_sim.cfg', simulate=60, depth=16, seed=ctx.seed + 1, workers=1), 'sim', ['free'])
         c2s(ctx, 1500, 300)
+        c2s_sessions(ctx, 120)
     else:
         ctx.mc('MC_Slice', 'MC_Slice_thorough.cfg')
         s2c(ctx, ctx.generate('MC_Slice', 'MC_Slice_gen_big.cfg'), 'big')
+        ctx.mc('MC_SliceSess', 'MC_SliceSess_thorough.cfg')
+        # why histories with edits are enumerated: a df_unslice that remembers the last frame object, and a stitch that stores
+        # its trimmed series back into the list it was given, break the clauses of the session machine
+        ctx.mc('MC_SliceSess', 'MC_SliceSess_memo.cfg', must_fail='UnsliceNoMemory', coverage=False)
+        ctx.mc('MC_SliceSess', 'MC_SliceSess_trim.cfg', must_fail='CallsOwnNothing', coverage=False)
+        s2c_sessions(ctx, ctx.generate('MC_SliceSess', 'MC_SliceSess_gen_thorough.cfg'), 'pairs', FORMS)
+        s2c_sessions(ctx, ctx.generate('MC_SliceSess', 'MC_SliceSess_sim_thorough.cfg', simulate=3000, depth=20, seed=ctx.seed + 1, workers=1), 'sim', ['free'])
         c2s(ctx, 20000, 4000)
+        c2s_sessions(ctx, 2500)
     report(ctx)
     ctx.exhaustive = False
     ctx.assumptions += [
